@@ -15,9 +15,9 @@ pub fn mon() -> Mon {
         run,
         finish,
         replay,
-        rule: "Receive corpus: every base packet (all library encoders, forged requests/responses for every command, all message types, maximum-length packets), each of bytes 0-12 through all 256 values (PEC recomputed or not), every command x direction x data length, every completion code, every Set-EID operation and vendor selector 0..255, every control-header and type byte, every truncation point of every base packet and empty input, every total length 0..263 and 508..519 per type, zero-padded packets, plus a seeded random mixture of valid, mutated and random strings. Each input goes to decode_packet, get_length and process_packet (response buffer 64..300 bytes) on long-lived contexts with random valid configurations (1-16 vendor sets of format 0/1, <= 30 types) under the panic trap with overflow checks on. Any panic is a refuting event keyed by (API, byte-determined input class, panic kind). Non-trivial = every input (each is a real execution of all three entry points); distinct = distinct input byte strings.",
+        rule: "Receive corpus: every base packet (all library encoders, forged requests/responses for every command, all message types, maximum-length packets), each of bytes 0-12 through all 256 values (PEC recomputed or not), every command x direction x data length, every completion code, every Set-EID operation and vendor selector 0..255, every control-header and type byte, every truncation point of every base packet and empty input, every total length 0..263 and 508..519 per type, zero-padded packets, plus a seeded random mixture of valid, mutated and random strings. Each input goes to decode_packet, get_length and process_packet (response buffer 64..300 bytes) on long-lived contexts with random valid configurations (0-16 vendor sets of format 0/1, <= 30 types) under the panic trap with overflow checks on. Any panic is a refuting event keyed by (API, byte-determined input class, panic kind). Non-trivial = every input (each is a real execution of all three entry points); distinct = distinct input byte strings.",
         assumptions: &[
-            "configurations the constructor docs rule out (0 vendor sets, format >= 2, > 30 message types) and response buffers < 64 bytes are not generated",
+            "configurations with a vendor format >= 2 or more than 30 message types and response buffers < 64 bytes are not generated",
             "a process_packet panic that is the same panic decode_packet raises on that input is reported once, under decode_packet",
             "chk build: overflow-checks and debug-assertions on (measured at start-up); rel build and Miri (thorough) repeat a reduced workload",
         ],
@@ -99,7 +99,7 @@ fn run(cfg: &RunCfg) -> Report {
         random: if small { 300_000 } else { cfg.pick(6_000_000, 150_000_000) },
     };
     // three long-lived contexts per shard; inputs rotate over them
-    let cfgs: Vec<CtxCfg> = (0..3).map(|_| CtxCfg::random(&mut crng, false)).collect();
+    let cfgs: Vec<CtxCfg> = (0..3).map(|_| CtxCfg::random_maybe_empty(&mut crng, false, 4)).collect();
     with_ctx(&cfgs[0], |c0| {
         with_ctx(&cfgs[1], |c1| {
             with_ctx(&cfgs[2], |c2| {
